@@ -51,7 +51,7 @@ Lemma okey_one P e :
                      end) = r_expr e.
 Proof.
   intros H te sc outs.
-  destruct e as [[qq|] c | | qq | f a | f a p o | q0]; try apply H. reflexivity.
+  destruct e as [[qq|] c | | qq | f a | f a p o fr | q0]; try apply H. reflexivity.
 Qed.
 
 (* ------------------------------------------------------------------ the traversal misses nothing:
@@ -263,7 +263,7 @@ Section Mono.
                end).
   Proof.
     intros H te x sc outs Hx.
-    destruct e as [[qq|] c | | qq | f a | f a p o | q0]; try (apply H; exact Hx). reflexivity.
+    destruct e as [[qq|] c | | qq | f a | f a p o fr | q0]; try (apply H; exact Hx). reflexivity.
   Qed.
 
   Theorem ext_all :
@@ -294,7 +294,7 @@ Section Mono.
     - (* EStar *) intros q _ te x sc al cl _. destruct q; reflexivity.
     - (* EApp *) intros f a IHa F te x sc al cl Hx. cbn [r_expr] in F. cbo. now apply IHa.
     - (* EWin *)
-      intros f a IHa p IHp o IHo F te x sc al cl Hx. cbn [r_expr] in F.
+      intros f a IHa p IHp o IHo fr F te x sc al cl Hx. cbn [r_expr] in F.
       apply fresh_app in F as [Fa F]. apply fresh_app in F as [Fp Fo].
       cbo. rewrite !okv_app.
       destruct (IHa Fa) as [Ha _], (IHp Fp) as [Hp _], (IHo Fo) as [Ho _].
